@@ -165,7 +165,7 @@ def multisection(rep, tier, timeout):
     from openaerostruct.geometry.geometry_unification import unify_mesh
 
     rep.encode(mg.generate_mesh, mg.generate_section_geometry, mg.stitch_section_geometry, mg.output_oas_mesh, unify_mesh)
-    nsec = 2 if tier == "quick" else 3
+    nsec = 3 if tier == "quick" else 4
     taper = symarray("taper", (nsec,))
     spans = symarray("secspan", (nsec,))
     tsw = symarray("tansweep", (nsec,))
@@ -173,7 +173,7 @@ def multisection(rep, tier, timeout):
     from symoas.sym import atan
     assume = [gt(rc, 0)] + [gt(t, 0) for t in taper] + [lt(t, 2) for t in taper] + [gt(b, 0) for b in spans]
     surface = {"num_sections": nsec, "symmetry": True, "taper": taper, "span": spans,
-               "sweep": np.array([atan(t) for t in tsw], dtype=object), "root_chord": rc, "nx": 2, "ny": np.array([2, 3, 2][:nsec])}
+               "sweep": np.array([atan(t) for t in tsw], dtype=object), "root_chord": rc, "nx": 2, "ny": np.array([2, 3, 2, 3][:nsec])}
     with symbolic_numpy():
         paths = execute.explore(lambda: mg.generate_mesh(surface), assume + [ne(t, 1) for t in taper])
     obs = []
@@ -188,6 +188,18 @@ def multisection(rep, tier, timeout):
                 for c in range(3):
                     obs.append(oblig.Ob("edge sec%d/sec%d [%d,%d]" % (k, k + 1, i, c), lhs=secs[k][i, -1, c], rhs=secs[k + 1][i, 0, c], assume=pa,
                                         meta={"family": "multi-section meshes join with coincident edges"}))
+        # requested root chord and per-section taper: the chord at the inboard edge of section k is the root chord times the
+        # tapers of all sections inboard of it, the chord at its outboard edge that times its own taper
+        # (sections are numbered tip -> root on the symmetric half: the last one is the root section)
+        c_in = rc
+        for k in range(nsec - 1, -1, -1):
+            obs.append(oblig.Ob("chord sec%d inboard" % k, lhs=secs[k][-1, -1, 0] - secs[k][0, -1, 0], rhs=c_in, assume=pa,
+                                meta={"family": "section chords follow the requested root chord and tapers"}))
+            c_in = c_in * taper[k]
+            obs.append(oblig.Ob("chord sec%d outboard" % k, lhs=secs[k][-1, 0, 0] - secs[k][0, 0, 0], rhs=c_in, assume=pa,
+                                meta={"family": "section chords follow the requested root chord and tapers"}))
+            obs.append(oblig.Ob("span sec%d" % k, lhs=secs[k][0, -1, 1] - secs[k][0, 0, 1], rhs=spans[k], assume=pa,
+                                meta={"family": "section spans are the requested ones"}))
         # unifying the sections reproduces the contiguous surface node for node
         with symbolic_numpy():
             uni = symify(unify_mesh([{"mesh": s} for s in secs], shift_uni_mesh=False))
@@ -202,8 +214,45 @@ def multisection(rep, tier, timeout):
         for i in range(mesh.shape[0] - 1):
             for j in range(mesh.shape[1]):
                 obs.append(oblig.Ob("x increases [%d,%d]" % (i, j), cond=le(mesh[i + 1, j, 0], mesh[i, j, 0]), assume=pa, meta={"family": "x increases chordwise (multi-section)"}))
-    run_obligations(rep, "multi-section generate_mesh/unify (%d sections, %d paths)" % (nsec, len(paths)), obs, timeout,
-                    family=lambda ob: "multi-section: " + ob.meta["family"])
+    def replay(ob, env):
+        # the real generator on floats at the witness; the obligation's two sides are re-measured on its output by
+        # evaluating them with the mesh symbols replaced ... simpler: re-run the same measurement code numerically
+        envf = model.FillEnv(env)
+        num = lambda a: np.array([float(evalf([S(x)], envf)[S(x).nid]) for x in np.asarray(a, dtype=object).ravel()]).reshape(np.shape(a))
+        surf = dict(surface, taper=num(taper), span=num(spans), sweep=np.arctan(num(tsw)), root_chord=float(num(rc)))
+        rmesh, rsecs = mg.generate_mesh(surf)
+        runi = unify_mesh([{"mesh": x} for x in rsecs], shift_uni_mesh=False)
+        fam = ob.meta["family"]
+        bad = []
+        if "coincident" in fam:
+            for k in range(nsec - 1):
+                d = np.abs(rsecs[k][:, -1, :] - rsecs[k + 1][:, 0, :]).max()
+                if d > 1e-9:
+                    bad.append("sections %d and %d do not share an edge (gap %.3g)" % (k, k + 1, d))
+        elif "chords" in fam or "spans" in fam:
+            c = surf["root_chord"]
+            for k in range(nsec - 1, -1, -1):
+                got = (rsecs[k][-1, -1, 0] - rsecs[k][0, -1, 0], rsecs[k][-1, 0, 0] - rsecs[k][0, 0, 0])
+                want = (c, c * surf["taper"][k])
+                c = want[1]
+                if model.differs(got[0], want[0]) or model.differs(got[1], want[1]):
+                    bad.append("section %d chords %.6g -> %.6g, requested %.6g -> %.6g" % (k, got[0], got[1], want[0], want[1]))
+                if model.differs(rsecs[k][0, -1, 1] - rsecs[k][0, 0, 1], surf["span"][k]):
+                    bad.append("section %d span %.6g, requested %.6g" % (k, rsecs[k][0, -1, 1] - rsecs[k][0, 0, 1], surf["span"][k]))
+        elif "unifying" in fam:
+            if runi.shape != rmesh.shape or np.abs(runi - rmesh).max() > 1e-9:
+                bad.append("unify_mesh(sections) differs from the surface mesh")
+        else:
+            if np.any(np.diff(rmesh[0, :, 1]) <= 0):
+                bad.append("y not increasing")
+            if np.any(np.diff(rmesh[:, :, 0], axis=0) <= 0):
+                bad.append("x not increasing")
+            if model.differs(rmesh[0, -1, 1] - rmesh[0, 0, 1], surf["span"].sum()):
+                bad.append("total extent %.6g vs %.6g" % (rmesh[0, -1, 1] - rmesh[0, 0, 1], surf["span"].sum()))
+        return bool(bad), "; ".join(bad) or "real generate_mesh output satisfies the clause at the witness"
+
+    run_obligations(rep, "multi-section generate_mesh/unify (%d sections, %d paths)" % (nsec, len(paths)), obs, timeout, replay=replay,
+                    family=lambda ob: "multi-section: " + ob.meta["family"], box=(0.4, 0.9))
 
 
 def replay_file(path):
